@@ -29,6 +29,8 @@ Env == /\ More /\ ~skip /\ l' = l + 1 /\ UNCHANGED <<run, bad, skip, alive, ncyc
           \/ E.a = "SetSrc" /\ All(LAMBDA x : SetSrcOf(x, E.d, E.bytes))
           \/ E.a = "Inject" /\ All(LAMBDA x : InjectOf(x, E.prog, E.at))
           \/ E.a = "FailDriver" /\ All(LAMBDA x : FailDriverOf(x, E.d, E.op))
+          \/ E.a = "DebugVarWrite" /\ All(LAMBDA x : DebugVarWriteOf(x, E.var, E.val))
+          \/ E.a = "DebugIoWrite" /\ All(LAMBDA x : DebugIoWriteOf(x, E.addr, E.val))
 
 \* tasks whose overrun counter the property pins down (a task with both SINGLE and INTERVAL
 \* is outside what it says about overruns)
